@@ -68,8 +68,14 @@ THEOREMS = [
     "C12.ms_model_meets_spec",
     "C12.window_statistics_exact",
     "C12.field_extraction_exact",
+    # round 5 (Theorems3.lean, Clear.lean): windows reused after clear()
+    "C12.tw_clear_model_meets_spec",
+    "C12.tw_clear_restarts",
+    "C12.twTraceC_no_clear",
+    "C12.an_clear_model_meets_spec",
+    "C12.ans_clear_model_meets_spec",
 ]
-LEAN_TARGETS = ["RreModel.C12.Theorems", "RreModel.C12.Theorems2"]
+LEAN_TARGETS = ["RreModel.C12.Theorems", "RreModel.C12.Theorems2", "RreModel.C12.Theorems3"]
 N = {"quick": 4000, "thorough": 60000}
 EXHAUSTIVE = {"quick": False, "thorough": False}
 RULE = ("cases = corpus (defect witnesses + corner cases) + for every timestamp sequence of length <=4 over 0..3 "
@@ -119,7 +125,12 @@ RULE = ("cases = corpus (defect witnesses + corner cases) + for every timestamp 
         "add_event / record (tsOk); + max(32,N/32) `AS`: StreamAlphaNode::event_count / window_stats / clear after a run under the injected clock "
         "(asOk); + max(48,N/16) `SA`: StreamAnalytics::detect_anomalies (thresholds -0.5..3.0) and calculate_trend over 0..6 hand-built windows "
         "of 0..30 events (equal values, outliers, windows without numeric value; anomaliesOk / trendOk in exact integer / rational arithmetic, "
-        "exact ties accepted either way); + 24 `EV`: get_numeric / get_string / get_boolean of a field of every Value class (evOk).")
+        "exact ties accepted either way); + 24 `EV`: get_numeric / get_string / get_boolean of a field of every Value class (evOk). "
+        "Round 5: windows REUSED after clear() - an op `c` in TW / AN / AN E op lists (TimeWindow::clear, StreamAlphaNode::clear; Clear.lean: "
+        "twRunOkC / anRunOkC / ansRunOkC - after a clear the window is empty, its span has not moved, and every later step is judged against "
+        "what was offered since the clear): every history of length <=3 over {record t, add_event t (t in 0..3), clear} (the sibling insertion paths "
+        "mixed in every order on one window, with and without clears) on 4 sliding configurations, each followed by one more record, + max(300,N/3) TW / AN / AN E cases of the generators above with 1..3 "
+        "clears put in anywhere (first, last, twice in a row).")
 TRUSTED = [
     "Lean 4.33 kernel; axioms of every property theorem within {propext, Classical.choice, Quot.sound} (audited each run)",
     "hand-written model RreModel/C12/Model.lean tied to src/streaming/window.rs, operators.rs, aggregator.rs, event.rs and "
